@@ -374,6 +374,46 @@ func ResolvePseudos(f Formula, evs []*Event, conds []Lit) Formula {
 	return f
 }
 
+// ResolveHistory replaces the history pseudo literals (#everFailed) of f, which speak about every event
+// of the path before idx, closed loops included: "some call to the callee failed in some iteration" stays
+// true after the loop is left although the literal itself is no longer a path condition.
+func ResolveHistory(f Formula, p *Path, idx int) Formula {
+	switch x := f.(type) {
+	case FPseudo:
+		if x.P.Kind != "everFailed" {
+			return f
+		}
+		for i := 0; i < idx && i < len(p.Events); i++ {
+			e := &p.Events[i]
+			if e.Kind != EvCall || e.Deferred || e.CalleeName != x.P.Arg {
+				continue
+			}
+			errv := "err(" + e.Canon + ")"
+			for j := i + 1; j < idx && j < len(p.Events); j++ {
+				if c := &p.Events[j]; c.Kind == EvCond && c.Lit.L == errv && c.Lit.RNil && c.Lit.Mask == mLT|mGT {
+					return FConst(true)
+				}
+			}
+		}
+		return FConst(false)
+	case FAnd:
+		out := make(FAnd, len(x))
+		for i, y := range x {
+			out[i] = ResolveHistory(y, p, idx)
+		}
+		return out
+	case FOr:
+		out := make(FOr, len(x))
+		for i, y := range x {
+			out[i] = ResolveHistory(y, p, idx)
+		}
+		return out
+	case FNot:
+		return FNot{ResolveHistory(x.F, p, idx)}
+	}
+	return f
+}
+
 func evalPseudo(p Pseudo, evs []*Event, conds []Lit) bool {
 	switch p.Kind {
 	case "passed":
